@@ -236,11 +236,28 @@ bool xact_base_t::finalize()
     DEBUG("xact.finalize",
           "there were exactly two commodities, and no null post");
 
+    const balance_t& bal(balance.as_balance());
+
+    const amount_t * x = NULL;
+    const amount_t * y = NULL;
+    foreach (const balance_t::amounts_map::value_type& pair, bal.amounts) {
+      if (pair.second.is_realzero())
+        continue;
+      if (! x)
+        x = &pair.second;
+      else
+        y = &pair.second;
+    }
+
     bool     saw_cost = false;
     post_t * top_post = NULL;
 
+    // The posting that decides which of the two commodities is the primary
+    // one must be in one of them (not in a commodity that cancelled)
     foreach (post_t * post, posts) {
-      if (! post->amount.is_null() && post->must_balance()) {
+      if (! post->amount.is_null() && post->must_balance() &&
+          (post->amount.commodity() == x->commodity() ||
+           post->amount.commodity() == y->commodity())) {
         if (post->amount.has_annotation())
           top_post = post;
         else if (! top_post)
@@ -254,20 +271,7 @@ bool xact_base_t::finalize()
     }
 
     if (! saw_cost && top_post) {
-      const balance_t& bal(balance.as_balance());
-
       DEBUG("xact.finalize", "there were no costs, and a valid top_post");
-
-      const amount_t * x = NULL;
-      const amount_t * y = NULL;
-      foreach (const balance_t::amounts_map::value_type& pair, bal.amounts) {
-        if (pair.second.is_realzero())
-          continue;
-        if (! x)
-          x = &pair.second;
-        else
-          y = &pair.second;
-      }
 
       if (*x && *y) {
         if (x->commodity() != top_post->amount.commodity())
